@@ -1015,9 +1015,35 @@ pub fn n_option_peers() -> u64 {
     (4 * 14 * 6) as u64
 }
 
+/// Errors far enough to the right for the rendered line to be cropped on the left, with multi-byte text in
+/// the part that is cut away and at the location: 4 fills x 46 lengths x 3 forms.
+const CROP_FILLS: [&str; 4] = ["é", "日", "😀x", "ab ñ"];
+const CROP_EXTRA_LENS: [usize; 10] = [100, 101, 102, 103, 127, 128, 129, 200, 500, 1000];
+
+pub fn n_crop_peers() -> u64 {
+    (CROP_FILLS.len() * (36 + CROP_EXTRA_LENS.len()) * 3) as u64
+}
+
+fn crop_peer(i: usize) -> (String, T01, String) {
+    let fill = CROP_FILLS[i % CROP_FILLS.len()];
+    let j = i / CROP_FILLS.len();
+    let nl = 36 + CROP_EXTRA_LENS.len();
+    let len = if j % nl < 36 { 40 + j % nl } else { CROP_EXTRA_LENS[j % nl - 36] };
+    let form = j / nl;
+    let pad = fill.repeat(len);
+    let tail = fill.repeat(70);
+    let (doc, target) = match form {
+        0 => (format!("{{name: \"{pad}\", n: {tail}}}\n"), T01::Fam(Target::Cfg)),
+        1 => (format!("k: \"{pad}\" {tail}\n"), T01::Fam(Target::Json)),
+        _ => (format!("{{name: \"{pad}\", list: [1, {tail}], n: 1}}\n"), T01::Fam(Target::Cfg)),
+    };
+    (doc, target, format!("crop-peer fill={fill:?} len={len} form={form}"))
+}
+
 pub fn total(tier: Tier) -> u64 {
     n_probes()
         + n_option_peers()
+        + n_crop_peers()
         + match tier {
             Tier::Quick => 16_000,
             Tier::Thorough => 300_000,
@@ -1091,6 +1117,23 @@ pub fn gen_case(tier: Tier, seed: u64, idx: u64) -> Case {
             target: T01::Fam(Target::Json),
             opts,
             chunking: Chunking::Fixed(7),
+            faults: vec![],
+            nonsticky_eof_at: None,
+            blocks_after_eof: false,
+            peer_waits: false,
+            closure_mode: 0,
+            origin,
+        });
+    }
+    // (behind the seeded cases, so that their indices - and with them their draws - stay what they were)
+    if idx + 1 + n_crop_peers() >= total(tier) {
+        let i = (idx + 1 + n_crop_peers() - total(tier)) as usize;
+        let (doc, target, origin) = crop_peer(i);
+        return Case::C01(TotalCase {
+            bytes: Doc::from_str(&doc),
+            target,
+            opts: OptVec::default(),
+            chunking: if i % 2 == 0 { Chunking::Whole } else { Chunking::Fixed(7) },
             faults: vec![],
             nonsticky_eof_at: None,
             blocks_after_eof: false,
